@@ -13,7 +13,15 @@ NESTED_IMPORTS = ("Py Lang Defs Cond Dsl Check DocSem PathSpec Path Cast RuleDef
 def nested_item(g, pg, doc, path_p=0.5):
     from .props.c10 import limit_parts
     if g.r.random() < path_p:
-        return normalise_path(limit_parts(pg.path(doc, max_len=2, mods_p=0.4)))
+        pa = normalise_path(limit_parts(pg.path(doc, max_len=2, mods_p=0.4)))
+        # under a data-type class every argument is read as a type name (known finding D12, exercised by C09's main pass): keep the
+        # conditions inside the parts of a nested path within what both the API and the spec language can say
+        from .props.c10 import types_under_dtype
+        for part in pa.parts:
+            for ca in (getattr(part, "kw", None) or {}).values():
+                if ca is not None and not ca.is_lit:
+                    types_under_dtype(ca.cond)
+        return pa
     return copy.deepcopy(g.r.choice(LITS))
 
 
@@ -28,11 +36,13 @@ def nested_leaf(g, pg, doc, tuple_p=0.0, classes=("Value", "Value", "Key", "Inde
     return Leaf(g.r.choice(list(classes)), m, [arg])
 
 
-def nested_tree(g, pg, doc, tuple_p=0.0, classes=("Value", "Value", "Key", "Index")):
+def nested_tree(g, pg, doc, tuple_p=0.0, classes=("Value", "Value", "Key", "Index"), evaluated=False):
+    """evaluated: the condition will be FILTERED on documents - then no range bound is given as a path (a bound picked up in a document
+    can be astronomically large, and `x in range(lo, hi)` scans the range for a non-integer x: I.10)."""
     t = nested_leaf(g, pg, doc, tuple_p, classes)
     if g.r.random() < 0.35:
         b = nested_leaf(g, pg, doc, tuple_p, classes) if g.r.random() < 0.6 else \
-            Leaf("Value", "in_range", [], {"lower": nested_item(g, pg, doc) if g.r.random() < 0.5 else 1, "upper": 5})
+            Leaf("Value", "in_range", [], {"lower": nested_item(g, pg, doc) if (g.r.random() < 0.5 and not evaluated) else 1, "upper": 5})
         t = Bin(g.r.choice(["and", "or", "xor"]), t, b)
         if {l.cls for l in t.leaves()} >= {"Key", "Index"}:
             for l in t.leaves():
